@@ -1846,6 +1846,19 @@ class Interp:
             if isinstance(v, NodeV):
                 return [(cfg, NodeV(v.cls, {**v.fields, "$copy": TRUE}, v.path))]
             return [(cfg, v)]
+        if fname == "sorted" and len(args) == 1 and isinstance(args[0], ListV) and not kwargs:
+            def skey(v):
+                if isinstance(v, Const):
+                    return (0, repr(type(v.v)), v.v)
+                if isinstance(v, ListV) and v.items and isinstance(v.items[0], Const):
+                    return (0, repr(type(v.items[0].v)), v.items[0].v)
+                return None
+            keys = [skey(v) for v in args[0].items]
+            if all(k is not None for k in keys):
+                try:
+                    return [(cfg, ListV([v for _, v in sorted(zip(keys, args[0].items), key=lambda kv: kv[0])], "list"))]
+                except TypeError:
+                    pass
         if fname in ("any", "all") and len(args) == 1 and isinstance(args[0], ListV):
             truths = [self.static_truth(x, cfg) for x in args[0].items]
             if all(t is not None for t in truths):
@@ -1922,6 +1935,8 @@ class Interp:
             if meth == "append" and len(args) == 1:
                 return rebind(ListV(base.items + (args[0],), base.kind))
             if meth == "add" and len(args) == 1:
+                if base.kind == "set" and args[0] in base.items:
+                    return [(cfg, NONE)]
                 return rebind(ListV(base.items + (args[0],), base.kind))
             if meth == "extend" and len(args) == 1 and isinstance(args[0], ListV):
                 return rebind(ListV(base.items + args[0].items, base.kind))
@@ -1930,7 +1945,8 @@ class Interp:
             if meth == "copy":
                 return [(cfg, base)]
             if meth == "update" and len(args) == 1 and isinstance(args[0], ListV):
-                return rebind(ListV(base.items + args[0].items, base.kind))
+                extra = args[0].items if base.kind != "set" else tuple(x for x in dict.fromkeys(args[0].items) if x not in base.items)
+                return rebind(ListV(base.items + extra, base.kind))
             if meth in ("issubset", "issuperset", "difference", "union", "intersection", "isdisjoint") and len(args) == 1:
                 other = args[0]
                 if isinstance(other, Const) and isinstance(other.v, (frozenset, set, tuple, list)):
